@@ -4,7 +4,8 @@
 //! `BytesStreamSink`, so that the harness can hand the server *any* byte string as a
 //! client frame (the honest client sink refuses empty / maximal datagrams).
 //!
-//! raw case:  `<cap> <op>|<op>|...`   (cap = per-connection queue capacity, `Config::channel_capacity`)
+//! raw case:  `<cap> <op>|<op>|...`   (cap = per-connection queue capacity, `Config::channel_capacity`;
+//!                                    0 = leave the default PER_CLIENT_SEND_QUEUE_DEPTH)
 //!   `c<i>v<1|2>`  connect a new connection for key-pool id i (0..=2), protocol version 1|2;
 //!                 connections are numbered 0,1,2.. in connect order
 //!   `x<k>`        client k closes (server-side stream ends)
@@ -21,7 +22,8 @@
 //!
 //! Everything runs on one current-thread tokio runtime; after every op the driver yields
 //! until no actor has polled its stream or written anything for 16 consecutive yields.
-//! There is no real IO and no timer shorter than 16 s involved, so a run is deterministic.
+//! There is no real IO; the only timers are the actors' ping intervals (first tick immediate -
+//! awaited explicitly after `register` - then >= 16 s), so a run is deterministic.
 #![allow(dead_code)]
 use std::{
     collections::VecDeque,
@@ -63,6 +65,7 @@ struct PipeState {
     waker: Option<Waker>,
     output: Vec<Vec<u8>>,
     dropped: bool,
+    polled: bool,
 }
 
 /// Server side of one connection (what the relay reads from / writes to).
@@ -92,6 +95,7 @@ impl Stream for MemStream {
     fn poll_next(self: Pin<&mut Self>, cx: &mut Context<'_>) -> Poll<Option<Self::Item>> {
         self.act.fetch_add(1, Ordering::SeqCst);
         let mut st = self.st.lock().unwrap();
+        st.polled = true;
         match st.input.pop_front() {
             Some(In::Frame(b)) => Poll::Ready(Some(Ok(b))),
             Some(In::End) => Poll::Ready(None),
@@ -151,12 +155,61 @@ pub fn pool_bytes(i: usize) -> [u8; 32] {
 }
 
 // ---------------------------------------------------------------- ops
+/// Frame contents: literal / LCG recipe (hcommon::Bytes) or `z:<len>:<byte>` = len copies of
+/// one byte (Coq: `C04.rep len byte`), which is cheap to evaluate at the 64 KiB boundaries.
+#[derive(Clone, Debug)]
+pub enum Content {
+    B(Bytes),
+    Rep(usize, u8),
+}
+
+impl Content {
+    pub fn to_vec(&self) -> Vec<u8> {
+        match self {
+            Content::B(b) => b.to_vec(),
+            Content::Rep(n, b) => vec![*b; *n],
+        }
+    }
+    pub fn raw(&self) -> String {
+        match self {
+            Content::B(b) => b.raw(),
+            Content::Rep(n, b) => format!("z:{n}:{b}"),
+        }
+    }
+    pub fn parse(t: &str) -> Content {
+        match t.strip_prefix("z:") {
+            Some(r) => {
+                let (n, b) = r.split_once(':').unwrap();
+                Content::Rep(n.parse().unwrap(), b.parse().unwrap())
+            }
+            None => Content::B(Bytes::parse(t)),
+        }
+    }
+    pub fn coq(&self) -> String {
+        match self {
+            Content::B(b) => b.coq(),
+            Content::Rep(n, b) => format!("(C04.rep {n} {b})"),
+        }
+    }
+    pub fn len(&self) -> usize {
+        match self {
+            Content::B(Bytes::Hex(v)) => v.len(),
+            Content::B(Bytes::Fill(n, _)) => *n,
+            Content::Rep(n, _) => *n,
+        }
+    }
+    /// random contents of length n: literal when short, LCG recipe when medium, constant byte when long
+    pub fn random(rng: &mut Rng, n: usize) -> Content {
+        if n > 9000 { Content::Rep(n, rng.below(256) as u8) } else { Content::B(Bytes::random(rng, n)) }
+    }
+}
+
 #[derive(Clone, Debug)]
 pub enum Frame {
-    Dgram { nonmin: bool, batch: bool, dst: usize, ecn: u8, ss: u16, data: Bytes },
+    Dgram { nonmin: bool, batch: bool, dst: usize, ecn: u8, ss: u16, data: Content },
     Ping([u8; 8]),
     Pong([u8; 8]),
-    Raw(Bytes),
+    Raw(Content),
 }
 
 #[derive(Clone, Debug)]
@@ -201,17 +254,17 @@ impl Frame {
                     dst: p[1].parse().unwrap(),
                     ecn: p[2].parse().unwrap(),
                     ss: if batch { p[3].parse().unwrap() } else { 0 },
-                    data: Bytes::parse(p[4]),
+                    data: Content::parse(p[4]),
                 }
             }
             "p" => Frame::Ping(unhex(rest).try_into().unwrap()),
             "q" => Frame::Pong(unhex(rest).try_into().unwrap()),
-            "r" => Frame::Raw(Bytes::parse(rest)),
+            "r" => Frame::Raw(Content::parse(rest)),
             _ => panic!("bad frame {s}"),
         }
     }
     /// header bytes (everything before the datagram contents) and the contents recipe
-    fn parts(&self) -> (Vec<u8>, Option<&Bytes>) {
+    fn parts(&self) -> (Vec<u8>, Option<&Content>) {
         match self {
             Frame::Dgram { nonmin, batch, dst, ecn, ss, data } => {
                 let t: u8 = if *batch { 5 } else { 4 };
@@ -250,9 +303,11 @@ impl Frame {
             None => coq_hex(&h),
         }
     }
-    fn recipes<'a>(&'a self, out: &mut Vec<&'a Bytes>) {
-        if let (_, Some(b @ Bytes::Fill(..))) = self.parts() {
-            out.push(b);
+    fn recipes<'a>(&'a self, out: &mut Vec<&'a Content>) {
+        if let (_, Some(c)) = self.parts() {
+            if c.len() > 64 {
+                out.push(c);
+            }
         }
     }
 }
@@ -379,8 +434,18 @@ pub fn execute(cap: usize, ops: &[Op]) -> Vec<(bool, Vec<Vec<u8>>)> {
                     let conn_id = guard.connection_id();
                     let ver = if *v == 1 { ProtocolVersion::V1 } else { ProtocolVersion::V2 };
                     let mut cfg = Config::new(guard, RelayedStream::new(mem, KeyCache::new(16)), ver);
-                    cfg.channel_capacity = cap;
+                    if cap != 0 {
+                        cfg.channel_capacity = cap; // 0: keep Config::new's default PER_CLIENT_SEND_QUEUE_DEPTH
+                    }
                     clients.register(cfg, metrics.clone());
+                    // The actor's first await is the immediate first tick of its ping
+                    // interval, which needs the (millisecond-granular) time driver: wait
+                    // in real time until the actor has reached its select loop once.
+                    let t0 = std::time::Instant::now();
+                    while !st.lock().unwrap().polled {
+                        tokio::time::sleep(std::time::Duration::from_micros(200)).await;
+                        assert!(t0.elapsed().as_secs() < 10, "actor never started");
+                    }
                     conns.push(ConnH { h: Handle { st }, id, conn_id });
                 }
                 Op::Close(k) => {
@@ -429,13 +494,11 @@ pub fn execute(cap: usize, ops: &[Op]) -> Vec<(bool, Vec<Vec<u8>>)> {
 }
 
 // ---------------------------------------------------------------- rendering observations
-fn coq_contents(d: &[u8], recipes: &[&Bytes]) -> String {
+fn coq_contents(d: &[u8], recipes: &[&Content]) -> String {
     if d.len() > 64 {
         for r in recipes {
-            if let Bytes::Fill(n, _) = r {
-                if *n == d.len() && r.to_vec() == d {
-                    return r.coq();
-                }
+            if r.len() == d.len() && r.to_vec() == d {
+                return r.coq();
             }
         }
     }
@@ -443,7 +506,7 @@ fn coq_contents(d: &[u8], recipes: &[&Bytes]) -> String {
 }
 
 /// Hand-written parser of relay-to-client frames (independent of the crate's decoder).
-fn coq_frame(f: &[u8], recipes: &[&Bytes]) -> String {
+fn coq_frame(f: &[u8], recipes: &[&Content]) -> String {
     let other = || format!("C04.OOther {}", coq_hex(f));
     if f.is_empty() {
         return other();
@@ -545,7 +608,7 @@ fn gen_frame(rng: &mut Rng, nconn_ids: &[usize]) -> Frame {
                     v
                 }
             };
-            Frame::Raw(Bytes::Hex(b))
+            Frame::Raw(Content::B(Bytes::Hex(b)))
         }
         _ => {
             let batch = rng.chance(1, 3);
@@ -562,7 +625,7 @@ fn gen_frame(rng: &mut Rng, nconn_ids: &[usize]) -> Frame {
                 dst,
                 ecn: if rng.chance(1, 6) { rng.below(256) as u8 } else { rng.below(4) as u8 },
                 ss: if batch { *rng.pick(&[0u16, 1, 1, 7, 1200, 1200, 65535]) } else { 0 },
-                data: Bytes::random(rng, n),
+                data: Content::random(rng, n),
             }
         }
     }
@@ -570,7 +633,7 @@ fn gen_frame(rng: &mut Rng, nconn_ids: &[usize]) -> Frame {
 
 pub fn generate(rng: &mut Rng, i: u64, _n: u64) -> String {
     let cap = match rng.below(8) {
-        0 => DEPTH,
+        0 => 0,
         1 => 1,
         2 | 3 => 2,
         _ => rng.range(3, 8) as usize,
@@ -625,8 +688,8 @@ pub fn generate(rng: &mut Rng, i: u64, _n: u64) -> String {
                         if same_dst {
                             *dst = d0;
                         }
-                        if data.to_vec().len() > 2000 && !rng.chance(1, 6) {
-                            *data = Bytes::random(rng, 5);
+                        if data.len() > 2000 && !rng.chance(1, 4) {
+                            *data = Content::random(rng, 5);
                         }
                     }
                     fs.push((who, f));
